@@ -79,6 +79,12 @@ func callErr(c *vrt.Ctx, where string, in string, f func() error) (accepted bool
 			// a recover wrapper turned a runtime fault into the error result: counted (DESIGN C06 Z);
 			// the Must* form of the same call is checked for the fault itself
 			c.Class("runtime-fault-via-wrapper:" + where)
+			textFront := (strings.HasPrefix(where, "oj.") || strings.HasPrefix(where, "sen.") || strings.HasPrefix(where, "gen.") || strings.HasPrefix(where, "jp.")) && !strings.Contains(where, "Unmarshal")
+			if textFront {
+				// a parser, tokenizer or validator is given text: whatever the text is, the answer is
+				// a parse error that names a position, not the text of an index or slice fault
+				c.Fail("runtime-fault-as-error", where, fmt.Sprintf("%s on %s", msg, in), faultTag(msg))
+			}
 			if where == "asm.Plan.Execute" {
 				// a plan is text a user writes: a wrong argument is answered with an error that says
 				// so, not with the text of a runtime fault that a recover turned into an error
@@ -791,6 +797,45 @@ func TestEnumPathPrefixes(t *testing.T) {
 		}
 	}
 	suite.AddExtra("path_prefix_cases", int64(n))
+}
+
+// TestEnumTokenEnds: every lead-in x every token x every cut inside the token x the JSON and SEN
+// front-ends x whole input and reads of 1, 2, 3 bytes: an input that ends inside a token (right
+// after an opening quote, inside an escape, inside a literal or a number) after the scan loops
+// have already run once in the same buffer. The random generator draws from the same lists; the
+// full product is small enough to enumerate.
+func TestEnumTokenEnds(t *testing.T) {
+	if i, n := vrt.Shard(); n > 1 && i != 0 {
+		return // once is enough
+	}
+	toks := []string{"true", "false", "null", `"string \u00e9 \n"`, `'single'`, "-123.456e+78", "12345678901234567890123", "abc", `{"key":1}`}
+	leads := []string{"", " ", "[", "[1,", `{"a":`, `{"a":[true, `, "\n\n", `{"a_rather_long_key_to_look_at": `, `["abc", `, `{"k":"v", `, "[abc "}
+	n := 0
+	for _, lead := range leads {
+		for _, tok := range toks {
+			for k := 1; k <= len(tok); k++ {
+				for _, target := range []string{"json", "sen"} {
+					for _, chunk := range []int{0, 1, 2, 3} {
+						vrt.Eval(suite, "total", Case{Target: target, Input: []byte(lead + tok[:k]), Chunk: chunk}, Run)
+						n++
+					}
+				}
+			}
+		}
+	}
+	// an opening quote as the very last byte of a 4096 byte read buffer
+	for _, q := range []string{`"`, `'`} {
+		for _, pre := range []string{`["abc", `, `{"k": `, "[ "} {
+			for _, rest := range []string{"xyz" + q + "]", q, "x"} {
+				in := pre + strings.Repeat(" ", 4096-len(pre)-1) + q + rest
+				for _, target := range []string{"json", "sen"} {
+					vrt.Eval(suite, "total", Case{Target: target, Input: []byte(in), Chunk: 0}, Run)
+					n++
+				}
+			}
+		}
+	}
+	suite.AddExtra("token_end_cases", int64(n))
 }
 
 func TestPropRandom(t *testing.T) {
